@@ -624,8 +624,6 @@ theorem toDatetime_ndl (P : Prims) (L : PrimLaws P) (E : Env) (n : Bool) (c : Na
             exact h3
           · exact h3
         · exact h3
-        · exact h3
-        · exact h3
 
 theorem toDate_ndl (P : Prims) (L : PrimLaws P) (E : Env) (n : Bool) (v : V) :
     Sub (toDate P E ⟨n, true⟩ v) (toDate P E ⟨n, false⟩ v) := by
@@ -1095,8 +1093,6 @@ theorem toDatetime_nec (P : Prims) (E : Env) (c : Nat) (df : Bool) (v : V) :
               split at h5
               · exact h5
               · simp at h5
-          · exact h3
-          · exact h3
           · exact h3
       · exfalso
         have hv : (∃ k c' xs, v = V.seq k c' xs) ∨ (∃ k i, v = V.enum k i) := by
